@@ -207,7 +207,21 @@ func (ucr *UnsignedChunkReader) readTrailer() error {
 	ucr.expectedChecksum = trailerHeaderParts[1]
 
 	// Validate checksum
-	return ucr.validateChecksum()
+	if err := ucr.validateChecksum(); err != nil {
+		return err
+	}
+
+	// Nothing may follow the trailer. Reading on to the end of the stream
+	// also lets the readers underneath finish their own verification (the
+	// deferred request signature is checked when the raw body reports its end).
+	_, err := ucr.reader.ReadByte()
+	if err == nil {
+		return errMalformedEncoding
+	}
+	if err != io.EOF {
+		return err
+	}
+	return nil
 }
 
 // Validates the trailing checksum sent at the end
